@@ -171,3 +171,30 @@ pub fn echo_client(builder: ClientBuilder) -> Client {
 	let (tx_in, rx_in) = mpsc::unbounded_channel();
 	builder.build_with_tokio(EchoSender(tx_in), MockReceiver(rx_in))
 }
+
+/// A transport whose `send` of a message containing `"block"` waits until the gate is opened (the send task is busy inside the
+/// transport meanwhile); every message is forwarded to the peer once sent. `entered` is signalled when the send task blocks.
+pub struct GatedSender { pub inner: mpsc::UnboundedSender<String>, pub gate: std::sync::Arc<tokio::sync::Notify>, pub entered: mpsc::UnboundedSender<()> }
+impl TransportSenderT for GatedSender {
+	type Error = MockErr;
+	fn send(&mut self, msg: String) -> impl Future<Output = Result<(), Self::Error>> + Send {
+		let gate = self.gate.clone();
+		let inner = self.inner.clone();
+		let entered = self.entered.clone();
+		async move {
+			if msg.contains("\"block\"") {
+				let _ = entered.send(());
+				gate.notified().await;
+			}
+			inner.send(msg).map_err(|_| MockErr("peer gone".into()))
+		}
+	}
+}
+pub fn gated_client(builder: ClientBuilder) -> (Client, Peer, std::sync::Arc<tokio::sync::Notify>, mpsc::UnboundedReceiver<()>) {
+	let (tx_out, rx_out) = mpsc::unbounded_channel();
+	let (tx_in, rx_in) = mpsc::unbounded_channel();
+	let (etx, erx) = mpsc::unbounded_channel();
+	let gate = std::sync::Arc::new(tokio::sync::Notify::new());
+	let c = builder.build_with_tokio(GatedSender { inner: tx_out, gate: gate.clone(), entered: etx }, MockReceiver(rx_in));
+	(c, Peer { from_client: rx_out, to_client: tx_in }, gate, erx)
+}
